@@ -529,6 +529,7 @@ type T struct {
 	rawLog   *log.Logger
 	s        bitStream
 	draws    int
+	started  int // draws begun, including one that was abandoned because its generator gave up
 	refDraws []any
 	mu       sync.RWMutex
 	failed   stopTest
